@@ -20,7 +20,7 @@ MOps == {"fullA", "fullB", "incrNew", "incrRepl", "incrSal", "removeHas", "remov
          "clear", "model2", "model3", "model4", "model9", "badfull", "badincr"}
 Manage == {[min |-> 1, max |-> 2, ops |-> s] : s \in UNION {[1..k -> MOps] : k \in 1..GOps}}
 
-UKinds == {"fullSame", "fullOther", "incrRepl", "incrNew", "remove", "clear"}
+UKinds == {"fullSame", "fullOther", "incrRepl", "incrKeepSal", "incrNew", "remove", "removeEnds", "clear"}
 UMethods == {"Execute", "ExecuteConcurrent", "ExecuteMixModel", "ExecuteInverseMixModel",
              "ExecuteNSortMConcurrent", "ExecuteNConcurrentMSort", "ExecuteNConcurrentMConcurrent",
              "ExecuteDAGModel", "ExecuteSelectedRules", "ExecuteSelectedRulesConcurrent",
